@@ -301,6 +301,24 @@ fn check_inner(spec: &CheckSpec, tier: Tier) -> i32 {
                             local.checked += rep.checked_oracle;
                             local.skipped += rep.skipped_oracle;
                             local.hash ^= mix(i, rep.log_hash);
+                            if let Ok(p) = std::env::var("VERIF_DUMP") {
+                                use std::io::Write;
+                                if let Ok(mut f) = std::fs::OpenOptions::new()
+                                    .append(true)
+                                    .create(true)
+                                    .open(p)
+                                {
+                                    let mut smp = rep.sample.clone();
+                                    smp.truncate(120);
+                                    let line = format!(
+                                        "{i} {:016x} {} {}\n",
+                                        rep.log_hash,
+                                        rep.trace.len(),
+                                        smp
+                                    );
+                                    let _ = f.write_all(line.as_bytes());
+                                }
+                            }
                             for (k, v) in &rep.counters {
                                 *local.counters.entry(k).or_insert(0) += v;
                             }
